@@ -57,7 +57,7 @@ def decide_kani(prop, kh_dir, hs, kr, tier):
         for fc in d["failed_checks"]:
             if "unwinding assertion" in fc["desc"]:
                 unwinding.append(fc)
-            elif h.expect_fail and re.search(h.expect_fail, fc["desc"]):
+            elif h.expect_fail and re.search(h.expect_fail, fc["desc"] + " in " + fc["func"]):
                 allowed.append(fc)
             else:
                 bad.append(fc)
